@@ -480,6 +480,95 @@ def random_walk_case(rng, B, build, steps):
     return w.line(rng.randint(0, 1))
 
 
+# ---- requested sizes of 2^31 and more -------------------------------------------------------
+# The scripted allocator answers a request of ANY size with a slot address and notes the size (harness/c15.c: only
+# the first 128 bytes exist; the tracker never touches a block's bytes).  Model sizes are Z.  So the record's size
+# member, every parameter the size travels through (spifmem_malloc/_calloc/_realloc -> memrec_add_var/_chg_var) and
+# the product count*size of calloc are exercised at the widths where a 32-bit (or signed) intermediate shows:
+# 2^31 +-1, 2^32 +-1, 2^32+4096, 2^33+24, 2^40+3, 2^63 +-1, 2^64-1.  No dump while such a block is live (the dump
+# prints the block's bytes); no strdup (it writes them).
+P31, P32, P63 = 1 << 31, 1 << 32, 1 << 63
+BIG_SIZES = [P31 - 1, P31, P31 + 1, P32 - 1, P32, P32 + 1, P32 + 4096, (1 << 33) + 24, (1 << 40) + 3, P63 - 1, P63, (1 << 64) - 1]
+BIG_QUICK = [P31 - 1, P31, P32 - 1, P32, P32 + 4096, (1 << 33) + 24, P63, (1 << 64) - 1]
+# count x element size with a product of 2^32 and more, each factor below 2^32 (and the two degenerate splits)
+BIG_CALLOC = [(65536, 65536), (65537, 65536), (P31, 2), (3, P31), (1, P32 + 4096), (P32 + 4096, 1), (P31 + 1, P31 - 1), (P32 - 1, P32 + 1)]
+BIG_MCALLOC = [1431655766, 1431655765 + 2, 2863311531, (1 << 40) // ESIZE + 1]        # x ESIZE = 2^32+2, 2^32+5, 2^33+1, ~2^40
+
+
+def bigsize_cases(quick, rng):
+    out = []
+    F, G = hx('f.c'), hx('a_file_name_of_more_than_twenty_characters.c')
+    SF = hx(SITE_FILE)
+    sizes = BIG_QUICK if quick else BIG_SIZES
+    for i, n in enumerate(sizes):
+        n2 = sizes[(i + 3) % len(sizes)]
+        for b in (5, 4):
+            # alone: malloc n; realloc to another big size in place and moving; down to a small one; up again; free
+            out.append('h %d %d L,5 m,%s,7,%d,1 r,%s,9,1,%d,1 r,%s,10,1,%d,2 r,%s,11,2,8,2 r,%s,12,2,%d,1 f,1 D' % (b, i % 2, F, n, G, n2, F, n, F, G, n))
+            # realloc(NULL, n) allocates; realloc(p, 0) frees
+            out.append('h %d 0 L,5 r,%s,3,0,%d,1 r,N,4,1,%d,1 r,%s,5,1,0,0 D m,%s,6,%d,1' % (b, F, n, n2, F, F, n))
+            # through the macros (tracking form on build 5, plain form on build 4)
+            out.append('h %d 0 L,5 M,%s,%d,%d,1 R,%s,%d,1,%d,2 R,%s,%d,2,%d,2 F,2 R,%s,%d,0,%d,3' % (
+                b, SF, SITE_LINE['M'], n, SF, SITE_LINE['R'], n2, SF, SITE_LINE['R'], n, SF, SITE_LINE['R'], n))
+        # among small blocks: the big record first, in the middle, last; a neighbour released and re-added around it
+        for pos in range(3):
+            ops = ['L,%d' % (5 if pos != 1 else 6)]
+            for k in range(3):
+                ops.append('m,%s,%d,%d,%d' % (F, 20 + k, n if k == pos else 8 + k, k + 1))
+            other = 1 + (pos + 1) % 3
+            ops += ['f,%d' % other, 'm,%s,30,%d,%d' % (G, n2, other), 'r,%s,31,%d,%d,4' % (F, pos + 1, n + 0 if n + 1 >= 1 << 64 else n + 1),
+                    'f,%d' % other, 'f,4', 'D']
+            out.append('h 5 %d ' % (pos % 2) + ' '.join(ops))
+        # tracking toggled off between the allocation and the resize: the record keeps what it had
+        out.append('h 5 0 L,5 m,%s,1,%d,1 L,4 r,%s,2,1,%d,2 L,5 r,%s,3,2,%d,2 f,2' % (F, n, F, n2, F, n))
+    for j, (cnt, esz) in enumerate(BIG_CALLOC):
+        for b in (5, 4):
+            out.append('h %d %d L,5 c,%s,%d,%d,%d,1 m,%s,2,8,2 r,%s,3,1,%d,3 c,N,4,%d,%d,1 f,3 f,1 D' % (b, j % 2, F, 40 + j, cnt, esz, F, F, cnt * esz + 1 if cnt * esz + 1 < 1 << 64 else 8, esz, cnt))
+    for cnt in BIG_MCALLOC:
+        for b in (5, 4):
+            out.append('h %d 0 L,5 C,%s,%d,%d,%d,1 M,%s,%d,8,2 F,1 C,%s,%d,%d,%d,1' % (b, SF, SITE_LINE['C'], cnt, ESIZE, SF, SITE_LINE['M'], SF, SITE_LINE['C'], cnt, ESIZE))
+    # random histories whose sizes are drawn from the big set (no dump while one of them is live)
+    for _ in range(150 if quick else 4000):
+        build = rng.choice([5, 5, 4])
+        direct = rng.random() < 0.6 or build == 4 and rng.random() < 0.5
+        ops, live, pool = ['L,%d' % rng.choice([5, 5, 6, 9999])], {}, list(range(1, 6))
+        for _ in range(rng.choice([3, 6, 12, 20])):
+            r = rng.random()
+            free_slots = [a for a in pool if a not in live]
+            sz = rng.choice(BIG_SIZES) if rng.random() < 0.7 else rng.choice([0, 1, 8, 128])
+            fn = rng.choice([F, G, 'N'])
+            ln = rng.choice(LINES)
+            if r < 0.4 and free_slots:
+                a = rng.choice(free_slots)
+                if rng.random() < 0.25 and direct:
+                    cnt, esz = rng.choice(BIG_CALLOC)
+                    ops.append('c,%s,%d,%d,%d,%d' % (fn, ln, cnt, esz, a))
+                    sz = cnt * esz
+                elif direct:
+                    ops.append('m,%s,%d,%d,%d' % (fn, ln, sz, a))
+                else:
+                    ops.append('M,%s,%d,%d,%d' % (SF, SITE_LINE['M'], sz, a))
+                live[a] = sz
+            elif r < 0.75 and live:
+                p = rng.choice(sorted(live))
+                a = p if (rng.random() < 0.4 or not free_slots) else rng.choice(free_slots)
+                if direct:
+                    ops.append('r,%s,%d,%d,%d,%d' % (fn, ln, p, sz, a))
+                else:
+                    ops.append('R,%s,%d,%d,%d,%d' % (SF, SITE_LINE['R'], p, sz, a))
+                del live[p]
+                if sz:
+                    live[a] = sz
+            elif r < 0.95 and live:
+                p = rng.choice(sorted(live))
+                ops.append(('f,%d' if direct else 'F,%d') % p)
+                del live[p]
+            elif all(v <= SLOTSZ for v in live.values()):
+                ops.append('D')
+        out.append('h %d %d ' % (build, rng.randint(0, 1)) + ' '.join(ops))
+    return out
+
+
 MACRO = set('MCRSF')
 
 
@@ -528,7 +617,10 @@ class C15(vlib.PropertyCheck):
               'realloc of NULL; free, realloc to 0; realloc in place and moving; direct and through the macros) at the crossing and every '
               'position of the released record (first, second, middle, at the boundary, last), as shortest histories, as a B-2..B+2 dance, as one '
               'staircase over all boundaries and as random walks pulled towards the boundary - the table\'s own storage is the sanitized real '
-              'allocator\'s, so a record written or read past it is a fault; (3) failure exits of the library that allocate before they fail '
+              'allocator\'s, so a record written or read past it is a fault; requested sizes of 2^31-1, 2^31, 2^32-1, 2^32, 2^32+4096, 2^33+24, '
+              '2^40+3, 2^63 and 2^64-1 (and calloc products of 2^32 and more from factors below 2^32) in malloc / calloc / realloc / macro '
+              'histories on model and implementation alike - the scripted allocator notes the requested size without providing the bytes, '
+              'the model\'s sizes are unbounded integers; (3) failure exits of the library that allocate before they fail '
               '(accept on an unopened / non-socket / non-listening descriptor, bind, connect and socket failures, send to a closed peer, refused '
               'string / buffer / container operations, URLs and regular expressions that do not parse or compile, tokenizer sources with '
               'unterminated quotes, configuration files that are missing, lack the magic line, include missing files, name unknown contexts, '
@@ -627,6 +719,8 @@ class C15(vlib.PropertyCheck):
             cases.append('scn 4 %s 1' % name)
         # live sets that cross a power of two / a multiple of 256, in both directions
         cases += self.boundary_cases(quick, rng)
+        # requested sizes of 2^31 .. 2^64-1 (model and implementation alike: nothing is really allocated)
+        cases += bigsize_cases(quick, rng)
         self._cases = cases
         return cases
 
